@@ -27,7 +27,7 @@ OP_WALL = 60
 NO_MINIMISE = {"hang"}
 RULE = ("one evaluation = one generated history (2-3 client sessions, up to 30 ops over a shared pool of series in 8 representations, shared containers, "
         "shared option dicts and long-lived model objects; ops: distance(_fast), warping_paths(_fast), warping_path(_fast), best_path, warp, lb_keogh, "
-        "ub_euclidean, ed.distance(_fast), distance_matrix (serial, blocks, compact), dtw_ndim twins, dba_loop (Python, C), SubsequenceSearch, "
+        "ub_euclidean, ed.distance(_fast), the same routines on caller buffers refilled in place between calls, distance_matrix (serial, blocks, compact), dtw_ndim twins, dba_loop (Python, C), SubsequenceSearch, "
         "SubsequenceAlignment, LocalConcurrences, Hierarchical, KMeans). Distinct = distinct (op kind, session) sequences; non-trivial = at least two "
         "sessions alternate at least twice.")
 COMPONENTS = {"real": ["dtw.py, dtw_ndim.py, ed.py, dtw_barycenter.py, util.py (SeriesContainer), util_numpy.py", "dtw_cc / ed_cc (C engine)",
@@ -117,8 +117,16 @@ def gen_history(st):
                 ra = ref()
                 rb_ = list(ra) if rng.below(10) == 0 else ref()       # sometimes the SAME object as both arguments
                 programs[s].append({"op": "pair", "fn": rng.choice(PAIR_FNS), "a": ra, "b": rb_, "opts": dref(), "use_c": bool(rng.below(2))})
-            elif k < 20:
+            elif k < 18:
                 programs[s].append({"op": "npair", "fn": rng.choice(NPAIR_FNS), "a": nref(), "b": nref(), "opts": dref(), "use_c": bool(rng.below(2))})
+            elif k < 20:
+                # a caller that REFILLS its own two buffers in place between consecutive calls of one routine (streaming use):
+                # same objects, same lengths, new numbers each time
+                L = rng.choice([len(x) for x in series])
+                same = [i for i in range(m) if len(series[i]) == L]
+                calls = [[rng.choice(same), rng.choice(same)] for _ in range(2 + rng.below(3))]
+                programs[s].append({"op": "refill", "fn": rng.choice(PAIR_FNS), "rep": rng.choice(["list", "array", "nd", "nd"]), "calls": calls,
+                                    "opts": dref(), "use_c": bool(rng.below(2))})
             elif k < 25:
                 blk = None
                 if rng.below(3) == 0:
@@ -215,6 +223,7 @@ class Pool:
         self.dicts = copy.deepcopy(setup["dicts"])
         self.conts = [self._cont(ci, c) for ci, c in enumerate(setup["conts"])]
         self.objs = {}
+        self.scratch = {}        # (rep, length, slot) -> [buffer the caller owns and refills in place, values last written]
         self.snap0 = self.snapshot()
 
     def _make(self, i, rep, v):
@@ -294,6 +303,23 @@ class Pool:
             return SeriesContainer.wrap(o)
         return o
 
+    def refill(self, i, rep, slot):
+        """The caller's scratch buffer for series of this length, refilled IN PLACE with series i (same object every time)."""
+        np = self.np
+        v = self.setup["series"][i]
+        if self.canonical or rep not in ("list", "array", "nd"):
+            rep = "nd"
+        key = (rep, len(v), slot)
+        ent = self.scratch.get(key)
+        if ent is None:
+            o = list(v) if rep == "list" else (array.array("d", v) if rep == "array" else np.array(v, dtype=np.double))
+            ent = self.scratch[key] = [o, None]
+        else:
+            o = ent[0]
+            o[:] = array.array("d", v) if rep == "array" else v
+        ent[1] = [float(x) for x in v]
+        return o
+
     def snapshot(self):
         np = self.np
         out = []
@@ -316,6 +342,9 @@ class Pool:
         for a, b in zip(self.snap0, now):
             if a != b:
                 return a[0]
+        for key, (o, want) in self.scratch.items():
+            if want is not None and [float(x) for x in o] != want:
+                return "caller buffer %s/len%d/slot%d" % key
         return None
 
 
@@ -383,48 +412,67 @@ def same_tol(a, b, tol=1e-9):
     return type(a) == type(b) and a == b
 
 
+def _pair_call(fn, a, b, o, uc):
+    """One two-series routine; result in plain form (exceptions propagate to run_op)."""
+    from dtaidistance import dtw, ed
+    if fn == "distance":
+        return _norm(dtw.distance(a, b, use_c=uc, **o))
+    if fn == "distance_fast":
+        return _norm(dtw.distance_fast(a, b, **o))
+    if fn == "lb_keogh":
+        oo = {k: v for k, v in o.items() if k in ("window", "max_dist", "max_step", "inner_dist")}
+        return _norm(dtw.lb_keogh(a, b, use_c=uc, **oo))
+    if fn == "ub_euclidean":
+        return _norm(dtw.ub_euclidean(a, b))
+    if fn == "ed_distance":
+        return _norm(ed.distance(a, b))
+    if fn == "ed_distance_fast":
+        return _norm(ed.distance_fast(a, b))
+    if fn == "warping_paths":
+        d, p = dtw.warping_paths(a, b, use_c=uc, **o)
+        return _norm([d, p])
+    if fn == "warping_paths_fast":
+        d, p = dtw.warping_paths_fast(a, b, **o)
+        return _norm([d, p])
+    oo = {k: v for k, v in o.items() if k not in ("max_dist",)}
+    if fn == "warping_path":
+        return _norm([list(map(int, t)) for t in dtw.warping_path(a, b, use_c=uc, **oo)])
+    if fn == "warping_path_fast":
+        return _norm([list(map(int, t)) for t in dtw.warping_path_fast(a, b, **oo)])
+    if fn == "warp":
+        w, path = dtw.warp(a, b, use_c=uc, **oo)
+        return _norm([list(map(float, w)), [list(map(int, t)) for t in path]])
+    if fn == "best_path":
+        d, p = dtw.warping_paths(a, b, use_c=uc, **oo)
+        return _norm([list(map(int, t)) for t in dtw.best_path(p)])
+    raise ValueError("unknown pair routine %r" % (fn,))
+
+
 def run_op(pool, op, alone):
     """Execute one op in the given context.  Returns a JSON-able result description; raises nothing."""
     from dtaidistance import dtw, dtw_ndim, ed, dtw_barycenter
     import numpy as np
     kind = op["op"]
     try:
+        if kind == "refill":
+            fn, uc = op["fn"], op["use_c"]
+            out = []
+            twins = []
+            for (ia, ib) in op["calls"]:
+                # in a twin context every call gets a context of its own, and all of them stay alive until the op is over:
+                # no two twin calls ever see the same object (or a recycled address)
+                ctx = pool if alone is None else Pool(pool.setup, canonical=pool.canonical)
+                twins.append(ctx)
+                a = ctx.refill(ia, op["rep"], 0)
+                b = ctx.refill(ib, op["rep"], 1)
+                out.append(_pair_call(fn, a, b, _opts(ctx, op["opts"]), uc))
+                if alone is None and ctx.changed() is not None:
+                    break
+            return out
         if kind == "pair":
             a = pool.items[tuple(op["a"])]
             b = pool.items[tuple(op["b"])]
-            o = _opts(pool, op["opts"])
-            fn = op["fn"]
-            uc = op["use_c"]
-            if fn == "distance":
-                return _norm(dtw.distance(a, b, use_c=uc, **o))
-            if fn == "distance_fast":
-                return _norm(dtw.distance_fast(a, b, **o))
-            if fn == "lb_keogh":
-                oo = {k: v for k, v in o.items() if k in ("window", "max_dist", "max_step", "inner_dist")}
-                return _norm(dtw.lb_keogh(a, b, use_c=uc, **oo))
-            if fn == "ub_euclidean":
-                return _norm(dtw.ub_euclidean(a, b))
-            if fn == "ed_distance":
-                return _norm(ed.distance(a, b))
-            if fn == "ed_distance_fast":
-                return _norm(ed.distance_fast(a, b))
-            if fn == "warping_paths":
-                d, p = dtw.warping_paths(a, b, use_c=uc, **o)
-                return _norm([d, p])
-            if fn == "warping_paths_fast":
-                d, p = dtw.warping_paths_fast(a, b, **o)
-                return _norm([d, p])
-            oo = {k: v for k, v in o.items() if k not in ("max_dist",)}
-            if fn == "warping_path":
-                return _norm([list(map(int, t)) for t in dtw.warping_path(a, b, use_c=uc, **oo)])
-            if fn == "warping_path_fast":
-                return _norm([list(map(int, t)) for t in dtw.warping_path_fast(a, b, **oo)])
-            if fn == "warp":
-                w, path = dtw.warp(a, b, use_c=uc, **oo)
-                return _norm([list(map(float, w)), [list(map(int, t)) for t in path]])
-            if fn == "best_path":
-                d, p = dtw.warping_paths(a, b, use_c=uc, **oo)
-                return _norm([list(map(int, t)) for t in dtw.best_path(p)])
+            return _pair_call(op["fn"], a, b, _opts(pool, op["opts"]), op["use_c"])
         if kind == "npair":
             a = pool.nitems[tuple(op["a"])]
             b = pool.nitems[tuple(op["b"])]
@@ -648,7 +696,7 @@ def execute(history):
                 obs.append([opi, core.digest_value(live)])
                 # result stability / aliasing: an array the library returned must not share memory with a pooled input and
                 # must not be changed by later library calls
-                raw = _RAW["last"] if kind in ("pair", "npair", "matrix", "dba") and not _is_exc(live) else None
+                raw = _RAW["last"] if kind in ("pair", "npair", "matrix", "dba", "refill") and not _is_exc(live) else None
                 _RAW["last"] = None
                 arrs = _arrays_in(raw)
                 for a_ in arrs:
@@ -684,7 +732,7 @@ def execute(history):
                 if not same_exact(twin, live):
                     add({"class": "history-dependence", "detail": "%s returned %s here, %s when issued alone in a fresh context" % (json.dumps(op)[:200], str(live)[:160], str(twin)[:160])}, opi)
                 # 3. container independence: same call on canonical contiguous copies
-                if kind in ("pair", "npair", "matrix", "dba") and not _is_exc(live):
+                if kind in ("pair", "npair", "matrix", "dba", "refill") and not _is_exc(live):
                     canon = Pool(setup, canonical=True)
                     cres = run_op(canon, op, alone=True)
                     if _is_exc(cres):
@@ -774,6 +822,14 @@ def shrink(h):
                 ops = copy.deepcopy(h["ops"]); ops[i][key] = val
                 out.append({"setup": copy.deepcopy(setup), "ops": ops})
     for i, op in enumerate(h["ops"]):
+        if op["op"] == "refill":
+            if len(op["calls"]) > 2:
+                for d in range(len(op["calls"])):
+                    ops = copy.deepcopy(h["ops"]); del ops[i]["calls"][d]
+                    out.append({"setup": copy.deepcopy(setup), "ops": ops})
+            if op["rep"] != "nd":
+                ops = copy.deepcopy(h["ops"]); ops[i]["rep"] = "nd"
+                out.append({"setup": copy.deepcopy(setup), "ops": ops})
         if op["op"] == "threads":
             if len(op["progs"]) > 2:
                 for d in range(len(op["progs"])):
